@@ -10,6 +10,9 @@ import torch
 from leaspy.utils.weighted_tensor import WeightedTensor
 
 
+_DT = {torch.float32: b"f4", torch.float64: b"f8", torch.bool: b"b1", torch.int64: b"i8", torch.int32: b"i4"}
+
+
 def tensor_bytes(t) -> bytes:
     if t is None:
         return b"<None>"
@@ -22,8 +25,8 @@ def tensor_bytes(t) -> bytes:
             + (b"<nowt>" if w is None else tensor_bytes(w.to(torch.float64)))
         )
     if isinstance(t, torch.Tensor):
-        a = t.detach().cpu().contiguous().numpy()
-        return str(a.dtype).encode() + str(a.shape).encode() + a.tobytes()
+        a = t.detach().contiguous().numpy()
+        return _DT.get(t.dtype, b"?") + str(tuple(t.shape)).encode() + a.tobytes()
     if isinstance(t, np.ndarray):
         a = np.ascontiguousarray(t)
         return str(a.dtype).encode() + str(a.shape).encode() + a.tobytes()
@@ -42,8 +45,10 @@ def same_tensor(a: torch.Tensor, b: torch.Tensor) -> bool:
     """Bit-level equality up to the sign of zero, NaN == NaN; shapes and dtypes must agree."""
     if a.shape != b.shape or a.dtype != b.dtype:
         return False
+    if torch.equal(a, b):
+        return True
     if a.dtype == torch.bool or not a.dtype.is_floating_point:
-        return bool(torch.equal(a, b))
+        return False
     return bool(torch.equal(torch.nan_to_num(a, nan=1.2345e-30), torch.nan_to_num(b, nan=1.2345e-30))) and bool(
         torch.equal(torch.isnan(a), torch.isnan(b))
     )
